@@ -1,5 +1,6 @@
 (* C19 — correspondence.  case = ((op ...) (ws (out ...)))
      op  = (0 kind value) write | (1 kind) read | (2 kind) peek | (3) Bytes()
+         | (4 #bytes) Write(bytes) of the embedded bytes.Buffer | (5) Reset()
          | (9 seed total) a whole deep-buffer run regenerated and evaluated in Go
      out = (0 len) after a write | (1 value len) read/peek returned | (2 len) it panicked
          | (3 #bytes)
@@ -32,6 +33,8 @@ Definition op_of (s : sx) : option op :=
   | SList [SInt 1; SInt k] => option_map ORead (kind_of k)
   | SList [SInt 2; SInt k] => option_map OPeek (kind_of k)
   | SList [SInt 3] => Some OBytes
+  | SList [SInt 4; SBytes bs] => Some (ORaw (map Z.of_N bs))
+  | SList [SInt 5] => Some OReset
   | _ => None
   end.
 
@@ -150,6 +153,11 @@ Definition pstep (ws : Z) (p : pstate) (o : op) (x : obs) : option pstate :=
       if psync p
       then Some (mkP (pq p) true n (ok_if p ((n =? plen p) && (length (unread_of ws (pq p)) <? w)%nat) 4))
       else Some (mkP (pq p) false n (ok_if p (n =? plen p) 4))
+  (* raw bytes written through the embedded bytes.Buffer are that many uint8 values; Reset()
+     drops everything unread (and the reference is in step with the buffer again) *)
+  | ORaw bs, BLen n =>
+      Some (mkP (pq p ++ map (fun x => (KU8, x)) bs) (psync p) n (ok_if p (n =? plen p + Z.of_nat (length bs)) 1))
+  | OReset, BLen n => Some (mkP [] true n (ok_if p (n =? 0) 3))
   (* a write never panics on a healthy buffer: it appends its width *)
   | OWrite k v, BPanic n => Some (mkP (pq p) false n (fail p 1))
   | OBytes, BBytes b =>
